@@ -439,6 +439,23 @@ func runC02(r *mc.Report, e *Env) {
 		for _, ext := range [][]byte{{0x00}, {0xff}, make([]byte, 32)} {
 			do("content_extensions", s, "content-extended", fmt.Sprintf("+%x", ext), s.Key, cat(s.Content, ext...), "honest", nil)
 		}
+		// surplus bytes at the end of ONE field of the container, the offsets of the later fields moved
+		// along: every part the decoders look at first is genuine, the junk sits where a lenient
+		// inner decoder (RLP stream, SSZ list) stops reading
+		for _, nf := range []int{3, 2} {
+			f, ok := refFields(s.Content, nf)
+			if !ok || isBlockKey(s.Key) && s.Key[0] == 0x02 {
+				continue
+			}
+			for i := range f {
+				for _, ext := range [][]byte{{0x00}, {0x80}, {0xc0}, {0xff}, make([]byte, 32), f[i]} {
+					g := append([][]byte{}, f...)
+					g[i] = cat(f[i], ext...)
+					do("field_extensions", s, "field-extended", fmt.Sprintf("field %d of %d +%d bytes (first %02x)", i, nf, len(ext), ext[:minInt(1, len(ext))]), s.Key, refJoinFields(g), "honest", nil)
+				}
+			}
+			break
+		}
 		// key: every bit, truncation, extension; the source answers honestly (by the
 		// asked hash) or keeps serving this block's header whatever is asked
 		for _, mode := range []string{"honest", "serve"} {
@@ -676,4 +693,18 @@ func replayC02(r *mc.Report, e *Env, raw json.RawMessage) {
 	}
 	accepted := x.run(c.Seed, c.Kind, c.Detail, key, content, c.Oracle, serve)
 	fmt.Printf("REPLAY: accepted=%v, %d item(s) stored, validateContents error: %v\n", accepted, len(x.st.puts), x.err)
+}
+
+// refJoinFields: the container of n variable-size fields (the inverse of refFields).
+func refJoinFields(f [][]byte) []byte {
+	out := make([]byte, 4*len(f))
+	off := 4 * len(f)
+	for i, x := range f {
+		binary.LittleEndian.PutUint32(out[4*i:], uint32(off))
+		off += len(x)
+	}
+	for _, x := range f {
+		out = append(out, x...)
+	}
+	return out
 }
